@@ -4,6 +4,7 @@ R-ADDR (C01, C03, C20), R-FIELDMAP reader half (C01, C03), R-META0 (C03), R-WALK
 R-LAZY / R-BOUNDED-READ / R-EXACT-TILE (C20).
 """
 from rulebase import *
+from rulebase import _atom_facts as rulebase_atom_facts
 from rules_writer import SETTINGS, no_anchor, struct_field
 
 OFFLEN_CTOR = "tile_manager::TileManagerTile::OffsetLength"
@@ -512,6 +513,30 @@ def r_find(ctx):
                             or any(f[0] == "ne" and f[1][0] == "f" and f[1][2] == "run_length" and f[2] == 0 for f in facts)
                         has_contains = any(_is_contains(c, V("param:tile_id")) for c in conj) or any(f[0] == "bool" and _is_contains(f[1], V("param:tile_id")) and f[2] is True for f in facts)
                         extra = [c for c in conj if not _is_neg_leaf(c) and not _is_contains(c, V("param:tile_id"))]
+                        # the run written out as two comparisons, start ≤ id < start + run_length (which also excludes leaf pointers: their run is empty)
+                        lower = upper = False
+                        relfacts = list(facts)
+                        for c in conj:
+                            relfacts += rulebase_atom_facts(unmut(c), True)
+                        tid_ = V("param:tile_id")
+                        used = []
+                        for fct in relfacts:
+                            if fct[0] == "rel" and fct[1] in ("<", "<=", ">", ">="):
+                                op, l, r = fct[1], unmut(fct[2]), unmut(fct[3])
+                                if op in ("<", "<="):
+                                    op, l, r = {"<": ">", "<=": ">="}[op], r, l
+                                if op == ">=" and l == tid_ and r[0] == "f" and r[2] == "tile_id":
+                                    lower = True
+                                    used.append(fct)
+                                if op == ">" and r == tid_:
+                                    a_ = affine(l)
+                                    ks = sorted(k[2] for k in a_[1] if k[0] == "f")
+                                    if a_[0] == 0 and ks == ["run_length", "tile_id"] and all(v == 1 for v in a_[1].values()):
+                                        upper = True
+                                        used.append(fct)
+                        if lower and upper:
+                            has_leaf = has_contains = True
+                            extra = [c for c in extra if not any(rulebase_atom_facts(unmut(c), True)[0] == u for u in used if rulebase_atom_facts(unmut(c), True))]
                         ok = ok and has_leaf and has_contains and not extra
                         descr.append(tstr(body)[:80])
                     ok = ok and n_true >= 1
